@@ -150,6 +150,27 @@ where
     } // end of dump
 } // end of impl MaxValueTracker
 
+// verification hook (guarded): raw access to the node array, see src/verif.rs
+#[cfg(probminhash_verif)]
+impl<V> MaxValueTracker<V>
+where
+    V: MaxValue + PartialOrd + Copy + std::fmt::Debug,
+{
+    pub(crate) fn verif_raw(&self) -> &[V] {
+        &self.values
+    }
+
+    pub(crate) fn verif_from_raw(m: usize, values: Vec<V>) -> Self {
+        let last_index = (m << 1) - 2;
+        assert_eq!(values.len(), last_index + 1);
+        MaxValueTracker {
+            m,
+            last_index,
+            values,
+        }
+    }
+}
+
 #[cfg(test)]
 mod tests {
 
